@@ -28,7 +28,9 @@ RULE = (
     '(float) to the bit-identical master-curve value of the k-th level (rise '
     'ascending, then recession highest first) and the k-th value the '
     'instruction model extracts from the --observations output belongs to '
-    'the same level and equals the simulated value bit for bit; filling each '
+    'the same level and equals the number printed on that line exactly (which '
+    'in turn equals the simulated value of the table output to 1e-14 '
+    'relative); filling each '
     'placeholder with a full-precision rendering of the original value and '
     'loading the result with yaml.safe_load gives numerically the original '
     'parameter tree. Part values: arbitrary finite master-curve values '
@@ -264,7 +266,6 @@ def check_files(case):
         rec_tab = yaml.safe_load(
             guarded(wf.simulate, 'recession', sane, False))
     n_rise, n_rec = len(rise_view), len(rec_view)
-    truncated = []
     for what in ('rise', 'curves'):
         obs_lines = check_template(
             files[(what, 'tpl')], files[(what, 'pst')], wild_loaded, what)
@@ -312,17 +313,21 @@ def check_files(case):
                     'observation-and-simulation-at-different-levels',
                     '{} #{}: observation at {!r} mm, simulated value at '
                     '{!r} mm'.format(what, i, zo, zs))
-            if value != sim:
-                if len(line) > 24:
-                    # recorded finding D14: excluded here by construction,
-                    # raised at the very end so that everything else about
-                    # this case is still checked
-                    truncated.append((line, field))
-                    continue
+            printed = _printed_value(line)
+            if value != printed:
+                # what the instruction file extracts is not what the
+                # simulator printed on that line
                 raise Violation(
+                    'ins-field-narrower-than-float-text'
+                    if len(line) > 24 else
                     'extracted-value-differs-from-simulated',
-                    '{} #{}: {!r} from {!r}, simulated {!r}'.format(
-                        what, i, value, line, sim))
+                    '{} #{}: line {!r} read through columns 3:24 as '
+                    '{!r}'.format(what, i, line, field))
+            if not _same_number(printed, sim):
+                raise Violation(
+                    'observation-vector-differs-from-table',
+                    '{} #{}: printed {!r}, table {!r}'.format(
+                        what, i, printed, sim))
     if n_rec >= 2:
         labels.add('>=2-recession-levels')
     literals = [v for _, v in flatten_numbers(case['wild_parameters'])
@@ -331,12 +336,23 @@ def check_files(case):
         labels.add('literal-with-exponent')
     if {'>=2-recession-levels', 'literal-with-exponent'} <= labels:
         labels.add('nontrivial')
-    if truncated:
-        raise Violation(
-            'ins-field-narrower-than-float-text',
-            'line {!r} read through columns 3:24 as {!r}'.format(
-                *truncated[0]))
     return labels
+
+
+def _printed_value(line):
+    """The number a YAML reader finds on a '- value' line."""
+    try:
+        return float(yaml.safe_load(line)[0])
+    except Exception:  # pylint: disable=broad-except
+        return None
+
+
+def _same_number(a, b):
+    """Two renderings of one simulated value (the vector may carry fewer
+    digits so as to fit the instruction file's field)."""
+    if a is None or b is None:
+        return False
+    return a == b or abs(a - b) <= 1e-14 * max(abs(a), abs(b))
 
 
 # ------------------------------------------------------- value round trips
@@ -423,22 +439,20 @@ def check_values(case):
                             '{!r} vs {!r}'.format(line, want))
     extracted = model_pest.read_instructions(ins.getvalue(), vec.getvalue())
     labels = set()
-    truncated = []
     for (name, field, value, line), want in zip(extracted, simulated):
         if len(line) - 2 > 20:
             labels.add('nontrivial')
-        if value != want:
-            if len(line) > 24:
-                truncated.append((line, field))
-                continue
-            raise Violation('extracted-value-differs-from-simulated',
-                            '{!r} from {!r}, simulated {!r}'.format(
-                                value, line, want))
-    if truncated:
-        raise Violation(
-            'ins-field-narrower-than-float-text',
-            'line {!r} read through columns 3:24 as {!r}'.format(
-                *truncated[0]))
+        printed = _printed_value(line)
+        if value != printed:
+            raise Violation(
+                'ins-field-narrower-than-float-text'
+                if len(line) > 24 else
+                'extracted-value-differs-from-simulated',
+                'line {!r} read through columns 3:24 as {!r}'.format(
+                    line, field))
+        if not _same_number(printed, want):
+            raise Violation('observation-vector-differs-from-table',
+                            'printed {!r}, table {!r}'.format(printed, want))
     return labels
 
 
